@@ -651,7 +651,12 @@ impl<T: Config> UdpProtocol<T> {
         self.last_recv_time = Instant::now();
 
         // if the connection has been marked as interrupted, send an event to signal we are receiving again
-        if self.disconnect_notify_sent && self.state == ProtocolState::Running {
+        // (unless Disconnected has already been reported: the endpoint stays in the running state until the
+        // session has processed that event, and nothing may follow it)
+        if self.disconnect_notify_sent
+            && !self.disconnect_event_sent
+            && self.state == ProtocolState::Running
+        {
             trace!("Received message on interrupted protocol; sending NetworkResumed event");
             self.disconnect_notify_sent = false;
             self.event_queue.push_back(Event::NetworkResumed);
